@@ -602,6 +602,15 @@ class TraceList(Shape):
     def havoc(self, ctx, obj, name):
         # at a call site: the callee's postcondition defines the new trace by an equation
         # (new == old + [...]); until then the list is "pending" and must not be read
+        if isinstance(obj, V.SSeq):
+            # the caller holds the list as a sequence of symbolic length: havoc it as one
+            n = ctx.fresh_int(name + '_len')
+            ctx.assume_type(n >= 0)
+            obj.n = n
+            obj.arr = z3.Array(ctx.fresh_name(name + '_arr'), z3.IntSort(), obj.arr.sort().range())
+            return
+        if not isinstance(obj, SList):
+            raise EngineError(f'a trace list is havocked but the caller holds a {type(obj).__name__}')
         obj.items = [V.PENDING]
 
 
